@@ -59,6 +59,23 @@ func NewSeatManager(max int) *SeatManager {
 
 func (sm *SeatManager) renewSeatStatus() error {
 
+	// Waiting players behind the big blind are let in below, so positions have to be
+	// figured out again if that changes the number of playable seats
+	for {
+		count := sm.getPlayableSeatCount()
+
+		sm.assignPositions()
+
+		if sm.getPlayableSeatCount() == count {
+			break
+		}
+	}
+
+	return nil
+}
+
+func (sm *SeatManager) assignPositions() {
+
 	origSeats := sm.getNormalizeSeats(sm.dealer.ID)
 	seats := origSeats
 
@@ -95,8 +112,6 @@ func (sm *SeatManager) renewSeatStatus() error {
 	for _, s := range seats {
 		s.IsActive = true
 	}
-
-	return nil
 }
 
 func (sm *SeatManager) join(seatID int, p PlayerInfo) (int, error) {
